@@ -1,9 +1,12 @@
 #!/bin/sh
-# usage: seedcheck.sh <PROP> <patch.diff> [more props...]   -- apply a seeded change to /repo, run the checks, undo it
+# usage: seedcheck.sh <ignored> <patch.diff> <PROP...>  -- apply a seeded change to a SCRATCH COPY of /repo (never to /repo itself,
+# so that checks running elsewhere are not disturbed), run the checks against the copy, remove the copy
 patch=$2; shift 2 2>/dev/null
-export PYVC_EVIDENCE_DIR=${TMPDIR:-/tmp}/seed_evidence
-git -C /repo apply "$patch" || exit 9
+scratch=$(mktemp -d "${TMPDIR:-/tmp}/seedcheck_XXXXXX")
+cp -r /repo/src /repo/tests "$scratch"/ || exit 9
+(cd "$scratch" && git apply "$patch") || { rm -rf "$scratch"; exit 9; }
+export PYVC_REPO="$scratch" PYVC_EVIDENCE_DIR="$scratch/evidence"
 for p in "$@"; do
   (cd /verif && ./check $p 2>&1 | grep -E "VIOLATION|->" | cut -c1-220 | tail -4)
 done
-git -C /repo checkout -- .
+rm -rf "$scratch"
